@@ -1201,7 +1201,6 @@ func r4C08(c *Ctx) {
 		FFalse(MCall("util.IsStatefulSetRollingUpdate")),
 		FNil(MCall("util.GetTemplate")),
 		FCmp("==", idLookup, idLookup),
-		FTrue(MCall("util.EqualIgnoreHash")),
 		FNil(MResult("fetchMatchedRollout", 0)),
 		FTrue(MCall("RolloutStrategy.IsEmptyRelease")),
 	)
@@ -1226,7 +1225,16 @@ func r4C08(c *Ctx) {
 			}
 			return false
 		}
-		reach, at := CanReach(Entry(fn), noChange, ReachOpts{CutEdge: func(b *ssa.BasicBlock, k int) bool { return EdgeFactMatches(b, k, allowed) }})
+		// "the template did not change" is a reason only when no rollout-id is in use: with one, the id
+		// alone says whether this is a new release
+		noID := FCmp("==", idLookup, MConst(""))
+		sameTemplate := FTrue(MCall("util.EqualIgnoreHash"))
+		reach, at := CanReach(Entry(fn), noChange, ReachOpts{CutEdge: func(b *ssa.BasicBlock, k int) bool {
+			if EdgeFactMatches(b, k, allowed) {
+				return true
+			}
+			return EdgeFactMatches(b, k, sameTemplate) && HasFact(FactsFor(fn).At(b), noID)
+		}})
 		detail := ""
 		if reach {
 			detail = "the return at " + p.Pos(at.Pos()) + " answers 'unchanged' for a reason outside the list: a release change of a workload with a live Rollout is admitted without the partition freeze, and the native controller starts replacing pods"
